@@ -1,6 +1,7 @@
 //! Kani proof harnesses over the real `gamedig` crate (path dependency on
 //! /repo/crates/lib, built with `--cfg gamedig_verif`). One module per property.
 #![allow(clippy::all)]
+#![recursion_limit = "512"]
 
 pub mod common;
 pub mod entries;
